@@ -184,6 +184,8 @@ func safely(f func() string) (res string) {
 	return f()
 }
 
+func newRand(seed int64) *rand.Rand { return rand.New(rand.NewSource(seed)) }
+
 func (c *Ctx) pick(opts ...string) string { return opts[c.rng.Intn(len(opts))] }
 func (c *Ctx) chance(p float64) bool     { return c.rng.Float64() < p }
 
